@@ -186,6 +186,18 @@ theorem matchSet_iff (ps : List (List Char)) (s : List Char) :
       obtain ⟨q, hqp, hm'⟩ := (matches_cons_iff p c s).1 hm
       exact ⟨q, (mem_stepSet q ps c).2 ⟨p, hp, hqp⟩, hm'⟩
 
+/-- the executable matcher is exactly the declarative semantics -/
+theorem globMatch_iff (p s : List Char) : globMatch p s = true ↔ Matches p s := by
+  unfold globMatch
+  rw [matchSet_iff]
+  constructor
+  · rintro ⟨q, hq, hm⟩
+    simp only [List.mem_singleton] at hq
+    subst hq
+    exact hm
+  · intro h
+    exact ⟨p, List.mem_singleton.2 rfl, h⟩
+
 /-! ### bracket expressions without hyphen -/
 
 theorem splitChunks_no_hyphen (skip : Nat) (cur s : List Char) (h : '-' ∉ s) :
